@@ -140,4 +140,79 @@ def c03():
     return v.finish()
 
 
-CHECKS = {"C01": c01, "C02": c02, "C03": c03}
+def c04():
+    """observed results and print order against the reference semantics Sax.tla"""
+    t0 = time.time()
+    c = rt.campaign()
+    v = vlib.Verdict("C04")
+    info = {p["name"]: p for p in c["progs"]}
+    sx = c["sax"]
+    judged = bag_checked = np_bounds = 0
+    for r in c["runs"]:
+        if r["crash"] or r["hang"] or r["late"] or r["prints"] is None or r.get("nonterminating") or r.get("premature"):
+            continue
+        e = sx.get(r["prog"])
+        if not e:
+            continue
+        if e["sax_err"] or e["sax_left"] or not e["unique"]:
+            continue  # the reference itself does not complete this program: reported below
+        judged += 1
+        want = collections.Counter(e["bag"])
+        got = collections.Counter(r["prints"])
+        exact = r["mode"] != "np" or info[r["prog"]]["cfree"]
+        if exact:
+            bag_checked += 1
+            if want != got:
+                v.violation("%s (%s) printed %s, the SAX semantics gives %s" % (r["prog"], r["mode"], " ".join(sorted(r["prints"])), " ".join(e["bag"])),
+                            {"program": info[r["prog"]]["text"], "run": r["id"], "printed": r["prints"], "reference_bag": e["bag"]},
+                            {"program": r["prog"], "mode": r["mode"], "kind": "bag"})
+        else:
+            # non-polarized execution of a program with contraction may duplicate a provider before its first interaction:
+            # admitted multisets = same labels, each at least as often as in the reference
+            np_bounds += 1
+            if set(want) != set(got) or any(got[l] < want[l] for l in want):
+                v.violation("%s (np, with contraction) printed %s; not admitted by the SAX semantics (%s, eager copies may only add repetitions)" %
+                            (r["prog"], " ".join(sorted(r["prints"])), " ".join(e["bag"])),
+                            {"program": info[r["prog"]]["text"], "run": r["id"], "printed": r["prints"], "reference_bag": e["bag"]},
+                            {"program": r["prog"], "mode": r["mode"], "kind": "bag-np"})
+    so = c["sax_orders"]
+    byid = {r["id"]: r for r in c["runs"]}
+    for rej in so["rejected"]:
+        for rid in rej["ids"][:3]:
+            r = byid.get(rid, {})
+            e = sx.get(rej["prog"], {})
+            if collections.Counter(rej["prints"]) != collections.Counter(e.get("bag", [])):
+                continue  # already reported as a multiset violation
+            v.violation("%s (%s) printed the sequence %s: %s" % (rej["prog"], r.get("mode"), " ".join(rej["prints"]), rej["why"]),
+                        {"program": info[rej["prog"]]["text"], "run": rid, "printed": rej["prints"], "why": rej["why"]},
+                        {"program": rej["prog"], "mode": r.get("mode"), "kind": "order"})
+    for e in so["errors"]:
+        v.harness_errors.append("SaxTrace: " + e)
+    st = so.get("selftest") or {}
+    if st.get("ran") and not st.get("ok"):
+        v.harness_errors.append("SaxTrace binding self-test failed: " + json.dumps(st))
+    cf = c["sax_confluence"]
+    if not cf["ok"] and not cf.get("timeout"):
+        v.harness_errors.append("the reference semantics is not confluent / not clean on an accepted program (invariant %s): %s" %
+                                (cf.get("violated"), (cf.get("tail") or cf.get("error_text") or "")[-1500:]))
+    bad_ref = [n for n, e in sx.items() if e["sax_err"] or e["sax_left"] or not e["unique"]]
+    for n in bad_ref[:5]:
+        v.notes.append("reference semantics does not complete accepted program %s cleanly (err=%r, threads left=%d): not judged here; C01/C02 judge the real runs"
+                       % (n, sx[n]["sax_err"], sx[n]["sax_left"]))
+    _model_issues(c, v, ("ExpectedOutcome",))
+    cov = _common_coverage(c, {
+        "states": max(1, cf.get("distinct", 0) + so.get("states", 0)), "transitions": max(1, cf.get("generated", 0) + so.get("states", 0)),
+        "traces_validated_against_impl": so["accepted"],
+        "runs_judged": judged, "runs_multiset_equal_to_reference": bag_checked, "np_runs_with_contraction_judged_by_bounds": np_bounds,
+        "print_sequences_observed": so["observations"], "print_sequences_distinct": so.get("distinct_observations"),
+        "print_sequences_accepted_by_SaxTrace": so["accepted"], "print_sequences_rejected": len(so["rejected"]), "saxtrace_selftest": so.get("selftest"),
+        "reference_programs_completed": len(sx) - len(bad_ref), "reference_programs_not_completed": bad_ref[:10],
+        "reference_confluence": {k: cf.get(k) for k in ("ok", "programs", "distinct", "generated", "timeout")},
+        "interpreter_spec_outcomes_checked_against_reference": "GritsRT invariant ExpectedOutcome uses the Sax multiset (exhaustive, both polarized modes)"})
+    vlib.write_evidence("C04", "model_checking", cov, time.time() - t0, len(v.violations),
+                        ASSUME + ["the reference is the futures-style SAX machine of spec/Sax.tla; its own confluence, progress and single-assignment are model-checked per program (all interleavings) for the small programs",
+                                  "np runs of programs with contraction are judged by multiset bounds only (eager duplication), not by order"])
+    return v.finish()
+
+
+CHECKS = {"C01": c01, "C02": c02, "C03": c03, "C04": c04}
